@@ -1178,6 +1178,12 @@ func (fr *Frame) callApplies(b *ssa.BasicBlock, st *State, name string, args []V
 			continue
 		}
 		ax := fr.fc.eng.lemmaByName(ap.Lemma)
+		if ax == nil {
+			// an (assumed) axiom can be instantiated the same way; it is listed as trusted
+			if ax = fr.fc.eng.axiomByName(ap.Lemma); ax != nil {
+				fr.fc.trusted["axiom "+ax.Name+": "+ax.Src] = true
+			}
+		}
 		if ax == nil || len(ax.Vars) != len(ap.Args) {
 			fr.fc.unsupported("apply: lemma %s unknown or wrong number of arguments", ap.Lemma)
 			continue
